@@ -1,25 +1,703 @@
 // Package simfs stands in for package os inside the instrumented file_snapshot.go
 // (DESIGN.md §3.6). Without an active simulated file system every call is a pass-through
-// to package os, so the repository's own tests behave as before.
+// to package os, so the repository's own tests behave as before. With Active set, all
+// calls go to an in-memory file system that journals every operation, can fail or crash at
+// any operation, and can materialise the states a crash may leave behind.
+//
+// Durability model (what a crash may leave): metadata operations (mkdir, create, rename,
+// unlink, rmdir) are journalled in one global order; a crash preserves a prefix of that
+// journal that contains at least everything up to the last fsync (of any file or
+// directory). File data is only guaranteed up to the file's own last fsync: for a file
+// with un-synced writes the crash leaves its synced content, its latest content, or any
+// prefix of the latest content.
 package simfs
 
 import (
+	"errors"
+	"io"
 	"io/fs"
 	"os"
+	"path/filepath"
+	"sort"
+	"strings"
+	"syscall"
+	"time"
 )
 
-type File = os.File
 type FileMode = os.FileMode
 type DirEntry = os.DirEntry
 
 var Stderr = os.Stderr
 
-func MkdirAll(path string, perm fs.FileMode) error { return os.MkdirAll(path, perm) }
-func Create(name string) (*os.File, error)        { return os.Create(name) }
-func Open(name string) (*os.File, error)          { return os.Open(name) }
-func Remove(name string) error                    { return os.Remove(name) }
-func RemoveAll(path string) error                 { return os.RemoveAll(path) }
-func Rename(o, n string) error                    { return os.Rename(o, n) }
-func ReadDir(name string) ([]os.DirEntry, error)  { return os.ReadDir(name) }
-func IsExist(err error) bool                      { return os.IsExist(err) }
-func IsNotExist(err error) bool                   { return os.IsNotExist(err) }
+// Active is the simulated file system; nil means pass-through to package os.
+var Active *FS
+
+// ErrCrash is the panic value used to stop the code under test at a crash point.
+var ErrCrash = errors.New("simfs: simulated crash")
+
+type node struct {
+	dir      bool
+	data     []byte
+	synced   []byte // content at the last fsync of this file
+	dirty    bool   // written since the last fsync
+	ents     map[string]*node
+	everSync bool
+}
+
+type opRec struct {
+	kind string // mkdir create write rename unlink rmdir truncate
+	path string
+	to   string
+	data []byte
+	off  int64
+	n    *node
+}
+
+// FS is one simulated file system.
+type FS struct {
+	root      *node
+	ops       []opRec
+	syncPoint int // ops[:syncPoint] are durable
+	Count     int // operations performed (every API call counts)
+	CrashAt   int // panic(ErrCrash) when Count reaches this (before the op takes effect); 0 = off
+	FailAt    int // make the FailAt-th operation fail; 0 = off
+	FailKind  int // 0 EIO, 1 ENOSPC, 2 short write (writes only; else EIO)
+	Fired     map[string]int
+	Log       []string
+}
+
+// New returns an empty file system.
+func New() *FS {
+	return &FS{root: &node{dir: true, ents: map[string]*node{}}, Fired: map[string]int{}}
+}
+
+func split(p string) []string {
+	p = filepath.Clean(p)
+	var parts []string
+	for _, s := range strings.Split(p, string(filepath.Separator)) {
+		if s != "" && s != "." {
+			parts = append(parts, s)
+		}
+	}
+	return parts
+}
+
+func (f *FS) lookup(p string) *node {
+	n := f.root
+	for _, s := range split(p) {
+		if n == nil || !n.dir {
+			return nil
+		}
+		n = n.ents[s]
+	}
+	return n
+}
+
+func (f *FS) parent(p string) (*node, string) {
+	parts := split(p)
+	if len(parts) == 0 {
+		return nil, ""
+	}
+	n := f.root
+	for _, s := range parts[:len(parts)-1] {
+		if n == nil || !n.dir {
+			return nil, ""
+		}
+		n = n.ents[s]
+	}
+	if n == nil || !n.dir {
+		return nil, ""
+	}
+	return n, parts[len(parts)-1]
+}
+
+// step counts an operation, and crashes or fails it if so configured.
+func (f *FS) step(kind, path string) error {
+	f.Count++
+	if len(f.Log) < 400 {
+		f.Log = append(f.Log, kind+" "+path)
+	}
+	if f.CrashAt != 0 && f.Count == f.CrashAt {
+		f.Fired["crash"]++
+		panic(ErrCrash)
+	}
+	if f.FailAt != 0 && f.Count == f.FailAt {
+		f.Fired["error"]++
+		if f.FailKind == 1 {
+			return &os.PathError{Op: kind, Path: path, Err: syscall.ENOSPC}
+		}
+		return &os.PathError{Op: kind, Path: path, Err: syscall.EIO}
+	}
+	return nil
+}
+
+func notExist(op, p string) error { return &os.PathError{Op: op, Path: p, Err: syscall.ENOENT} }
+
+// ------------------------------------------------------------------ package-level API
+
+func MkdirAll(path string, perm fs.FileMode) error {
+	f := Active
+	if f == nil {
+		return os.MkdirAll(path, perm)
+	}
+	if err := f.step("mkdir", path); err != nil {
+		return err
+	}
+	n := f.root
+	cur := ""
+	for _, s := range split(path) {
+		cur = filepath.Join(cur, s)
+		c := n.ents[s]
+		if c == nil {
+			c = &node{dir: true, ents: map[string]*node{}}
+			n.ents[s] = c
+			f.ops = append(f.ops, opRec{kind: "mkdir", path: cur, n: c})
+		} else if !c.dir {
+			return &os.PathError{Op: "mkdir", Path: path, Err: syscall.ENOTDIR}
+		}
+		n = c
+	}
+	return nil
+}
+
+func Create(name string) (*File, error) {
+	f := Active
+	if f == nil {
+		r, err := os.Create(name)
+		if err != nil {
+			return nil, err
+		}
+		return &File{real: r}, nil
+	}
+	if err := f.step("create", name); err != nil {
+		return nil, err
+	}
+	dir, base := f.parent(name)
+	if dir == nil {
+		return nil, notExist("open", name)
+	}
+	n := dir.ents[base]
+	if n != nil && n.dir {
+		return nil, &os.PathError{Op: "open", Path: name, Err: syscall.EISDIR}
+	}
+	if n == nil {
+		n = &node{}
+		dir.ents[base] = n
+		f.ops = append(f.ops, opRec{kind: "create", path: name, n: n})
+	} else {
+		n.data = nil
+		n.dirty = true
+		f.ops = append(f.ops, opRec{kind: "truncate", path: name, n: n})
+	}
+	return &File{fs: f, n: n, name: name, writable: true}, nil
+}
+
+func Open(name string) (*File, error) {
+	f := Active
+	if f == nil {
+		r, err := os.Open(name)
+		if err != nil {
+			return nil, err
+		}
+		return &File{real: r}, nil
+	}
+	if err := f.step("open", name); err != nil {
+		return nil, err
+	}
+	n := f.lookup(name)
+	if n == nil {
+		return nil, notExist("open", name)
+	}
+	return &File{fs: f, n: n, name: name}, nil
+}
+
+func Remove(name string) error {
+	f := Active
+	if f == nil {
+		return os.Remove(name)
+	}
+	if err := f.step("remove", name); err != nil {
+		return err
+	}
+	return f.remove(name)
+}
+
+func (f *FS) remove(name string) error {
+	dir, base := f.parent(name)
+	if dir == nil || dir.ents[base] == nil {
+		return notExist("remove", name)
+	}
+	n := dir.ents[base]
+	if n.dir && len(n.ents) > 0 {
+		return &os.PathError{Op: "remove", Path: name, Err: syscall.ENOTEMPTY}
+	}
+	delete(dir.ents, base)
+	kind := "unlink"
+	if n.dir {
+		kind = "rmdir"
+	}
+	f.ops = append(f.ops, opRec{kind: kind, path: name})
+	return nil
+}
+
+// RemoveAll unlinks the children one system call at a time, in directory order (which is
+// arbitrary on real file systems; here: sorted, or reverse-sorted when ReverseDirOrder is
+// set), then the directory itself. Every unlink is an operation of its own: a crash or an
+// error can land between two of them.
+func RemoveAll(path string) error {
+	f := Active
+	if f == nil {
+		return os.RemoveAll(path)
+	}
+	n := f.lookup(path)
+	if n == nil {
+		if err := f.step("removeall", path); err != nil {
+			return err
+		}
+		return nil
+	}
+	if n.dir {
+		names := make([]string, 0, len(n.ents))
+		for k := range n.ents {
+			names = append(names, k)
+		}
+		sort.Strings(names)
+		if ReverseDirOrder {
+			for i, j := 0, len(names)-1; i < j; i, j = i+1, j-1 {
+				names[i], names[j] = names[j], names[i]
+			}
+		}
+		for _, k := range names {
+			if err := RemoveAll(filepath.Join(path, k)); err != nil {
+				return err
+			}
+		}
+	}
+	if err := f.step("remove", path); err != nil {
+		return err
+	}
+	return f.remove(path)
+}
+
+// ReverseDirOrder flips the order in which RemoveAll and ReadDir visit directory entries.
+var ReverseDirOrder bool
+
+func Rename(oldpath, newpath string) error {
+	f := Active
+	if f == nil {
+		return os.Rename(oldpath, newpath)
+	}
+	if err := f.step("rename", oldpath); err != nil {
+		return err
+	}
+	od, ob := f.parent(oldpath)
+	nd, nb := f.parent(newpath)
+	if od == nil || od.ents[ob] == nil || nd == nil {
+		return notExist("rename", oldpath)
+	}
+	if t := nd.ents[nb]; t != nil && t.dir && len(t.ents) > 0 {
+		return &os.PathError{Op: "rename", Path: newpath, Err: syscall.ENOTEMPTY}
+	}
+	nd.ents[nb] = od.ents[ob]
+	delete(od.ents, ob)
+	f.ops = append(f.ops, opRec{kind: "rename", path: oldpath, to: newpath})
+	return nil
+}
+
+type dirEntry struct {
+	name string
+	dir  bool
+	size int64
+}
+
+func (d dirEntry) Name() string { return d.name }
+func (d dirEntry) IsDir() bool  { return d.dir }
+func (d dirEntry) Type() fs.FileMode {
+	if d.dir {
+		return fs.ModeDir
+	}
+	return 0
+}
+func (d dirEntry) Info() (fs.FileInfo, error) { return fileInfo{d.name, d.size, d.dir}, nil }
+
+func ReadDir(name string) ([]os.DirEntry, error) {
+	f := Active
+	if f == nil {
+		return os.ReadDir(name)
+	}
+	if err := f.step("readdir", name); err != nil {
+		return nil, err
+	}
+	n := f.lookup(name)
+	if n == nil || !n.dir {
+		return nil, notExist("open", name)
+	}
+	names := make([]string, 0, len(n.ents))
+	for k := range n.ents {
+		names = append(names, k)
+	}
+	sort.Strings(names)
+	out := make([]os.DirEntry, 0, len(names))
+	for _, k := range names {
+		c := n.ents[k]
+		out = append(out, dirEntry{k, c.dir, int64(len(c.data))})
+	}
+	return out, nil
+}
+
+func IsExist(err error) bool    { return os.IsExist(err) }
+func IsNotExist(err error) bool { return os.IsNotExist(err) }
+
+// ------------------------------------------------------------------ File
+
+// File mirrors the part of *os.File that file_snapshot.go uses.
+type File struct {
+	real     *os.File
+	fs       *FS
+	n        *node
+	name     string
+	pos      int64
+	writable bool
+	closed   bool
+}
+
+type fileInfo struct {
+	name string
+	size int64
+	dir  bool
+}
+
+func (i fileInfo) Name() string { return i.name }
+func (i fileInfo) Size() int64  { return i.size }
+func (i fileInfo) Mode() fs.FileMode {
+	if i.dir {
+		return fs.ModeDir | 0o755
+	}
+	return 0o644
+}
+func (i fileInfo) ModTime() time.Time { return time.Time{} }
+func (i fileInfo) IsDir() bool        { return i.dir }
+func (i fileInfo) Sys() any           { return nil }
+
+func (f *File) Name() string {
+	if f.real != nil {
+		return f.real.Name()
+	}
+	return f.name
+}
+
+func (f *File) Write(p []byte) (int, error) {
+	if f.real != nil {
+		return f.real.Write(p)
+	}
+	if f.closed || !f.writable {
+		return 0, os.ErrClosed
+	}
+	fs := f.fs
+	fs.Count++
+	if len(fs.Log) < 400 {
+		fs.Log = append(fs.Log, "write "+f.name)
+	}
+	if fs.CrashAt != 0 && fs.Count == fs.CrashAt {
+		fs.Fired["crash"]++
+		// a crash in the middle of a write: part of the data may have reached the file
+		f.apply(p[:len(p)/2])
+		panic(ErrCrash)
+	}
+	if fs.FailAt != 0 && fs.Count == fs.FailAt {
+		fs.Fired["error"]++
+		switch fs.FailKind {
+		case 1:
+			return 0, &os.PathError{Op: "write", Path: f.name, Err: syscall.ENOSPC}
+		case 2:
+			k := len(p) / 2
+			f.apply(p[:k])
+			return k, io.ErrShortWrite
+		}
+		return 0, &os.PathError{Op: "write", Path: f.name, Err: syscall.EIO}
+	}
+	f.apply(p)
+	return len(p), nil
+}
+
+func (f *File) apply(p []byte) {
+	n := f.n
+	end := f.pos + int64(len(p))
+	if int64(len(n.data)) < end {
+		n.data = append(n.data, make([]byte, end-int64(len(n.data)))...)
+	}
+	copy(n.data[f.pos:], p)
+	f.fs.ops = append(f.fs.ops, opRec{kind: "write", path: f.name, data: append([]byte(nil), p...), off: f.pos, n: n})
+	f.pos = end
+	n.dirty = true
+}
+
+func (f *File) Read(p []byte) (int, error) {
+	if f.real != nil {
+		return f.real.Read(p)
+	}
+	if f.closed {
+		return 0, os.ErrClosed
+	}
+	if err := f.fs.step("read", f.name); err != nil {
+		return 0, err
+	}
+	if f.n.dir {
+		return 0, &os.PathError{Op: "read", Path: f.name, Err: syscall.EISDIR}
+	}
+	if f.pos >= int64(len(f.n.data)) {
+		return 0, io.EOF
+	}
+	k := copy(p, f.n.data[f.pos:])
+	f.pos += int64(k)
+	return k, nil
+}
+
+func (f *File) Seek(offset int64, whence int) (int64, error) {
+	if f.real != nil {
+		return f.real.Seek(offset, whence)
+	}
+	switch whence {
+	case io.SeekStart:
+		f.pos = offset
+	case io.SeekCurrent:
+		f.pos += offset
+	case io.SeekEnd:
+		f.pos = int64(len(f.n.data)) + offset
+	}
+	return f.pos, nil
+}
+
+func (f *File) Stat() (os.FileInfo, error) {
+	if f.real != nil {
+		return f.real.Stat()
+	}
+	if err := f.fs.step("stat", f.name); err != nil {
+		return nil, err
+	}
+	return fileInfo{filepath.Base(f.name), int64(len(f.n.data)), f.n.dir}, nil
+}
+
+// Sync makes the file's content, and the whole metadata journal so far, durable.
+func (f *File) Sync() error {
+	if f.real != nil {
+		return f.real.Sync()
+	}
+	if err := f.fs.step("fsync", f.name); err != nil {
+		return err
+	}
+	if !f.n.dir {
+		f.n.synced = append([]byte(nil), f.n.data...)
+		f.n.dirty = false
+		f.n.everSync = true
+	}
+	f.fs.syncPoint = len(f.fs.ops)
+	return nil
+}
+
+func (f *File) Close() error {
+	if f.real != nil {
+		return f.real.Close()
+	}
+	if f.closed {
+		return os.ErrClosed
+	}
+	if err := f.fs.step("close", f.name); err != nil {
+		f.closed = true
+		return err
+	}
+	f.closed = true
+	return nil
+}
+
+// ------------------------------------------------------------------ crash images
+
+// Choice describes one crash image: how much of the metadata journal survived and what
+// happened to the un-synced data of each dirty file.
+type Choice struct {
+	Cut  int   // ops[:Cut] survive
+	Data []int // per dirty file (in path order): 0 = synced content, 1 = latest content, 2 = half of the latest content
+}
+
+// Images enumerates the crash images allowed by the model (all of them when there are at
+// most max, otherwise every cut with a sample of data choices picked by pick).
+func (f *FS) Images(max int, pick func(n int) int) []*FS {
+	var out []*FS
+	for cut := f.syncPoint; cut <= len(f.ops); cut++ {
+		base := f.replay(cut)
+		dirty := base.dirtyFiles()
+		total := 1
+		for range dirty {
+			total *= 3
+		}
+		var combos [][]int
+		if total <= 9 {
+			for c := 0; c < total; c++ {
+				x := c
+				v := make([]int, len(dirty))
+				for i := range v {
+					v[i] = x % 3
+					x /= 3
+				}
+				combos = append(combos, v)
+			}
+		} else {
+			for k := 0; k < 6; k++ {
+				v := make([]int, len(dirty))
+				for i := range v {
+					v[i] = pick(3)
+				}
+				combos = append(combos, v)
+			}
+		}
+		for _, v := range combos {
+			img := f.replay(cut)
+			ds := img.dirtyFiles()
+			for i, n := range ds {
+				switch v[i] {
+				case 0:
+					n.data = append([]byte(nil), n.synced...)
+				case 2:
+					n.data = append([]byte(nil), n.data[:len(n.data)/2]...)
+				}
+				n.synced = append([]byte(nil), n.data...)
+				n.dirty = false
+			}
+			img.syncPoint = len(img.ops)
+			out = append(out, img)
+			if len(out) >= max {
+				return out
+			}
+		}
+	}
+	return out
+}
+
+// replay rebuilds the tree from the first cut journal entries. Content of each file is its
+// content as of that point; `synced` is what its last fsync before the crash had saved.
+func (f *FS) replay(cut int) *FS {
+	g := New()
+	m := map[*node]*node{} // original node -> copy
+	for i := 0; i < cut; i++ {
+		op := f.ops[i]
+		switch op.kind {
+		case "mkdir":
+			d, b := g.parent(op.path)
+			if d != nil {
+				c := &node{dir: true, ents: map[string]*node{}}
+				d.ents[b] = c
+				m[op.n] = c
+			}
+		case "create":
+			d, b := g.parent(op.path)
+			if d != nil {
+				c := &node{}
+				d.ents[b] = c
+				m[op.n] = c
+			}
+		case "truncate":
+			if c := m[op.n]; c != nil {
+				c.data = nil
+			}
+		case "write":
+			if c := m[op.n]; c != nil {
+				end := op.off + int64(len(op.data))
+				if int64(len(c.data)) < end {
+					c.data = append(c.data, make([]byte, end-int64(len(c.data)))...)
+				}
+				copy(c.data[op.off:], op.data)
+			}
+		case "rename":
+			od, ob := g.parent(op.path)
+			nd, nb := g.parent(op.to)
+			if od != nil && nd != nil && od.ents[ob] != nil {
+				nd.ents[nb] = od.ents[ob]
+				delete(od.ents, ob)
+			}
+		case "unlink", "rmdir":
+			d, b := g.parent(op.path)
+			if d != nil {
+				delete(d.ents, b)
+			}
+		}
+		g.ops = append(g.ops, op)
+	}
+	for o, c := range m {
+		if !o.dir {
+			c.synced = append([]byte(nil), o.synced...)
+			// dirty if the content at the cut differs from what was last synced
+			c.dirty = string(c.data) != string(c.synced)
+			if !o.everSync {
+				c.synced = nil
+				c.dirty = len(c.data) > 0
+			}
+		}
+	}
+	// the journal of the image refers to the original nodes: rebuild it so that the image can
+	// itself be operated on (and crashed) later
+	g.ops = nil
+	g.syncPoint = 0
+	return g
+}
+
+func (f *FS) dirtyFiles() []*node {
+	var out []*node
+	var walk func(n *node, p string)
+	walk = func(n *node, p string) {
+		names := make([]string, 0, len(n.ents))
+		for k := range n.ents {
+			names = append(names, k)
+		}
+		sort.Strings(names)
+		for _, k := range names {
+			c := n.ents[k]
+			if c.dir {
+				walk(c, p+"/"+k)
+			} else if c.dirty {
+				out = append(out, c)
+			}
+		}
+	}
+	walk(f.root, "")
+	return out
+}
+
+// ReadFile / WriteFile / Exists let the harness inspect and corrupt files directly
+// (they are not operations of the code under test and are not counted).
+func (f *FS) ReadFile(p string) ([]byte, bool) {
+	n := f.lookup(p)
+	if n == nil || n.dir {
+		return nil, false
+	}
+	return append([]byte(nil), n.data...), true
+}
+
+func (f *FS) WriteFile(p string, b []byte) bool {
+	n := f.lookup(p)
+	if n == nil || n.dir {
+		return false
+	}
+	n.data = append([]byte(nil), b...)
+	n.synced = append([]byte(nil), b...)
+	n.dirty = false
+	return true
+}
+
+// Tree lists every path (directories end with /), sorted.
+func (f *FS) Tree() []string {
+	var out []string
+	var walk func(n *node, p string)
+	walk = func(n *node, p string) {
+		for k, c := range n.ents {
+			if c.dir {
+				out = append(out, p+"/"+k+"/")
+				walk(c, p+"/"+k)
+			} else {
+				out = append(out, p+"/"+k)
+			}
+		}
+	}
+	walk(f.root, "")
+	sort.Strings(out)
+	return out
+}
